@@ -131,7 +131,12 @@ func c10Base(rng *rand.Rand, ov *overlap) (string, string, []string) {
 				switch kind {
 				case "Publish0", "Publish1", "Publish2":
 					q := mqtt.QoS(kind[7] - '0')
-					cli.Publish(ctx, &mqtt.Message{Topic: fmt.Sprintf("t/%d/%d", i, k), QoS: q, Payload: []byte("p")})
+					pl := []byte("p")
+					if lr.Intn(5) == 0 {
+						// large payloads (any special path for them must still put one whole packet on the wire at a time)
+						pl = make([]byte, []int{4096, 16384, 20000, 70000}[lr.Intn(4)])
+					}
+					cli.Publish(ctx, &mqtt.Message{Topic: fmt.Sprintf("t/%d/%d", i, k), QoS: q, Payload: pl})
 				case "Subscribe":
 					cli.Subscribe(ctx, mqtt.Subscription{Topic: fmt.Sprintf("s/%d", i), QoS: mqtt.QoS1})
 				case "Unsubscribe":
